@@ -91,6 +91,18 @@ def seed_partial_group(main, mask, target=None, name='Mean_Val', parms=None, wit
     return grp
 
 
+def refused_choice(p, foreign):
+    """hands the process a group that is NOT one of its resumable groups: it must be refused with ValueError and the refusal must
+    leave the process as it was (what follows is judged as if the call had never been made).  Returns a problem text or None."""
+    try:
+        p.use_partial_computation(h5_partial_group=foreign)
+    except ValueError:
+        return None
+    except Exception as e:
+        return 'the refusal came as %r instead of ValueError' % (e,)
+    return 'a group that is not resumable for this process (%s) was accepted' % foreign.name
+
+
 def read_log(path, M):
     """positions (row numbers) in call order, and the set of worker pids"""
     if not os.path.exists(path):
